@@ -9,6 +9,7 @@ import DrummerVerif.Lemmas.C01R
 import DrummerVerif.Lemmas.C05S
 import DrummerVerif.Lemmas.C01T
 import DrummerVerif.Lemmas.Quiet
+import DrummerVerif.Lemmas.C01H
 /-!
 # C01 — self-healing: the control loop restores every shard after faults stop (PARTIAL: safety invariants and per-round progress lemmas; the convergence bound is decided by the correspondence run, see DESIGN.md)
 
@@ -442,6 +443,50 @@ theorem healed_fleet_stays_healed :
     ∀ (l l' : Loop), Loop.Settled l → Loop.AllRunning l → QuietSteps l l' →
       Loop.Settled l' ∧ Loop.AllRunning l' ∧ SameFleet l l' :=
   @_root_.Drummer.healed_fleet_stays_healed
+
+/-! ### the healing timeline on states and events
+
+`crashed_member_is_detected_in_a_quiet_run`: a member crashes in a healed fleet (its NodeHost comes back with its data);
+whatever fault-free events follow, the fleet stays settled, the NodeHost keeps the data, and once the clock is more than
+the timeout past the member's last report the member is classified failed. `one_round_heals_the_detected_member`: from
+such a state ONE scheduling round (any context built from the state as `updateSchedulerContext` does, any draws), the
+NodeHost's report, its execution and its next report bring the member back, running and reported at the current time.
+Everything about the inside of the round is derived; what is assumed, visibly: the other members are classified healthy
+at that moment and Drummer has the NodeHost's log list (both are timing: reports arrive within the timeout).
+A state meeting every hypothesis, with the round evaluated by the kernel: `Props/WitnessTimeline`. -/
+
+theorem crashed_member_is_detected_in_a_quiet_run :
+    ∀ (size : Nat → Nat) (s rid t0 : Nat) (l1 l : Loop), Loop.Settled l1 → Loop.NotRunning s rid l1 → QuietSteps l1 l →
+      (∀ c ∈ l1.db.image.shards, c.shardId = s → ∀ r ∈ c.replicas, r.replicaId = rid → r.tick = t0) →
+        0 < t0 → l.db.tick < 18446744073709551616 → l.db.tick - t0 > nodeHostTTL →
+          Loop.Settled l ∧ SameFleet l1 l ∧
+            ∀ c' ∈ l.db.image.shards, c'.shardId = s → ∀ r' ∈ c'.replicas, r'.replicaId = rid →
+              Replica.failed r' l.db.tick = true ∨ r'.tick = 0 :=
+  @_root_.Drummer.crashed_member_is_detected_in_a_quiet_run
+
+theorem one_round_heals_the_detected_member :
+    ∀ (l : Loop), Loop.Settled l → Loop.AR l → UniqueShards l.db.image →
+      ∀ (cx : Ctx), CtxFull l.db cx → ∀ (draws rest : List Nat) (rs : List Request), maintain cx draws = SRes.ok rs rest →
+        ∀ (db' : DB) (n : Nat), DB.applyRequests l.db rs = Outcome.ok (db', n) →
+          (∀ c ∈ l.db.image.shards, Shard.IdsOK c) →
+            ∀ (c : Shard), c ∈ l.db.image.shards →
+              ∀ (m : Replica), Shard.failedReplicas c l.db.tick = [m] → Shard.toStart c l.db.tick = [] →
+                Shard.available c l.db.tick = true →
+                  ∀ (dd : ShardDef), dd ∈ l.db.shards → dd.shardId = c.shardId →
+                    ∀ (spec : HostSpec), hostFind? l.db.hosts m.address = some spec →
+                      HostSpec.available spec l.db.tick = true → HostSpec.hasLog spec c.shardId m.replicaId = true →
+                        ∀ (h : Host), Loop.host? l m.address = some h → Host.run? h c.shardId = none →
+                          ∀ (ap : Int), Host.dataGet h c.shardId m.replicaId = some ap →
+                            ∀ (l2 : Loop) (k : Nat),
+                              Loop.report { db := db', hosts := l.hosts, groups := l.groups, nextVer := l.nextVer, regions := l.regions }
+                                  m.address false = Outcome.ok (l2, k) →
+                                ∀ (lost : Bool) (l4 : Loop) (k4 : Nat),
+                                  Loop.report (Loop.execute l2 m.address) m.address lost = Outcome.ok (l4, k4) →
+                                    (∃ h3, Loop.host? (Loop.execute l2 m.address) m.address = some h3 ∧
+                                        Option.map (fun x => x.id) (Host.run? h3 c.shardId) = some m.replicaId) ∧
+                                      ∀ c' ∈ l4.db.image.shards, c'.shardId = c.shardId →
+                                        ∀ x ∈ c'.replicas, x.replicaId = m.replicaId → x.tick = l2.db.tick :=
+  @_root_.Drummer.one_round_heals_the_detected_member
 
 end C01
 end Drummer
